@@ -130,7 +130,7 @@ type outTask struct {
 	plans  []EmitPlan
 	allow  bool
 	slow   bool
-	reopen int // index of the command after which a command re-opens /dev/stdout and /dev/stderr by path (-1: none)
+	reopen int   // index of the command after which a command re-opens /dev/stdout and /dev/stderr by path (-1: none)
 	merge  []int // per command: 0 separate streams, 1 `2>&1`, 2 `1>&2` (one stream carries both, in the order written)
 }
 
